@@ -551,3 +551,183 @@ def hilo_pairs_task(k, bits):
     res.absorb_stats(x.stats)
     res['functions'] = prof.names()
     return res
+
+
+# ---------------------------------------------------------------------------
+# %hi/%lo pairs executed (C07 c): both modes, any instruction lengths
+# ---------------------------------------------------------------------------
+def _split_insns(data):
+    out, i = [], 0
+    while i + 2 <= len(data):
+        n = 4 if data[i] & 3 == 3 else 2
+        out.append((n, int.from_bytes(data[i:i + n], 'little')))
+        i += n
+    return out
+
+
+def _pair_effect(insns, ra, rb, target, what, pc0):
+    """z3 Bool: executing the instructions of the pair from pc0 addresses exactly target"""
+    from spec import sem
+    BV = z3.BitVecVal
+    regs0 = z3.Array('regs0', z3.BitVecSort(5), z3.BitVecSort(32))
+    regs, pc = regs0, pc0
+    ok = []
+    last = None
+    before = regs0
+    for k, (n, v) in enumerate(insns):
+        before = regs
+        w = sem.word_of(v, n)
+        if n == 2:
+            ok.append(sem.legal_c(v.bv(16) if isinstance(v, SymInt) else BV(v, 16)))
+        e = sem.step(w, regs, pc, n)
+        ok.append(z3.Not(e.opaque))
+        if k < len(insns) - 1:
+            ok.append(z3.Not(e.jump))
+            ok.append(e.mem_kind == 0)
+        last = e
+        regs, pc = sem.execute(e, regs, pc, n)
+    t = target
+    if what == 'reg':
+        ok.append(sem.rd_(regs, ra) == t)
+        ok.append(last.mem_kind == 0)
+    elif what == 'load':
+        ok += [last.mem_kind == 1, last.mem_addr == t, last.mem_rd == rb]
+    elif what == 'store':
+        ok += [last.mem_kind == 2, last.mem_addr == t, last.mem_val == sem.rd_(before, rb)]
+    elif what == 'jump':
+        ok += [last.is_jalr, pc == (t & BV(0xfffffffe, 32))]
+    return z3.And(*ok)
+
+
+# (source, files, value kind, what the pair does, pc-relative?, line of the label)
+HILO_EXEC = [
+    ('lui RA, %hi(V)\naddi RA, RA, %lo(V)', {}, 'V', 'reg', False, None),
+    ('lui RA %hi V\nlw RB, RA, %lo V', {}, 'V', 'load', False, None),
+    ('lui RA, %hi(V)\nsw RA, RB, %lo(V)', {}, 'V', 'store', False, None),
+    ('auipc RA, %hi(V)\naddi RA, RA, %lo(V)', {}, 'V', 'reg', True, None),
+    ('lui RA, %hi(L)\naddi RA, RA, %lo(L)\ninclude_bytes G0.bin\nL:', {'/w/G0.bin': ('gap', 'G0')}, 'L', 'reg', False, 4),
+    ('lui RA, %hi(%position(L, V))\nlw RB, RA, %lo(%position(L, V))\ninclude_bytes G0.bin\nL:\naddi x0 x0 0',
+     {'/w/G0.bin': ('gap', 'G0')}, 'P', 'load', False, 4),
+    ('auipc RA, %hi(V)\njalr RB, RA, %lo(V)', {}, 'V', 'jump', True, None),
+    ('addi x0 x0 0\nlui RA, %hi(V)\nlbu RB, RA, %lo(V)', {}, 'V', 'load', False, None),
+    ('K = V\nlui RA, %hi(K)\naddi RA, RA, %lo(K)', {}, 'V', 'reg', False, None),
+]
+
+
+def hilo_exec_task(k, bits, compress):
+    from .pseudo import line_insns, offset_of_line
+    src, files, vkind, what, pcrel, lline = HILO_EXEC[k]
+    lines = src.split('\n')
+    first = next(i for i, l in enumerate(lines, 1) if l.startswith(('lui', 'auipc')))
+    tag = 'hilo-exec:%d:%s' % (k, 'c' if compress else 'n')
+    res = TaskResult(tag)
+    pl = Pipeline(files)
+    x = core.Explorer(timeout_ms=60000)
+    prof = common.FuncProfile()
+    n_acc = 0
+    BV = z3.BitVecVal
+    base = z3.BitVec('loadbase', 32)
+
+    def bv32(v):
+        return v.bv(32) if isinstance(v, SymInt) else BV(v, 32)
+
+    def fn(p):
+        consts = dict(RA=p.int('RA', lo=1, hi=31), RB=p.int('RB', lo=0, hi=31))
+        markers = {}
+        if vkind in ('V', 'P'):
+            consts['V'] = p.int('V', bits)
+        if files:
+            markers['G0'] = p.int('G0', lo=0, hi=(1 << 23))
+        if what == 'load':
+            p.assume(consts['RB'] != 0)      # a load into x0 is a hint; its compressed forms are excluded anyway
+        p.notes.update(constants=consts, markers=markers)
+        with prof:
+            return pl.assemble(src, consts, compress, markers)
+
+    def formula(insns, start, cvals, label_off):
+        pc0 = base + bv32(start)
+        if vkind == 'V':
+            t = bv32(cvals['V'])
+        elif vkind == 'L':
+            t = bv32(label_off)
+        else:
+            t = bv32(cvals['V']) + bv32(label_off)
+        if pcrel:
+            t = t + pc0
+        ra = z3.Extract(4, 0, bv32(cvals['RA']))
+        rb = z3.Extract(4, 0, bv32(cvals['RB']))
+        return z3.And(z3.BoolVal(len(insns) >= 2), _pair_effect(insns, ra, rb, t, what, pc0))
+
+    def concrete_good(mdl, p):
+        cc = {n: core.concrete(v, mdl) for n, v in {**p.notes['constants'], **p.notes['markers']}.items()}
+        real = pl.real_assemble(src, p.notes['constants'], compress, p.notes['markers'], mdl)
+        if real[0] != 'ok':
+            return None, cc, real
+        # locate the pair in the real output: bytes before the first pair line are 4-byte nops / nothing
+        pre = 4 * (first - 1) if not compress else 2 * (first - 1)
+        if lines[0].startswith('K ='):
+            pre = 0
+        data = real[1]
+        lab = real[2].get('L') if isinstance(real[2], dict) else None
+        end = lab - cc.get('G0', 0) if lab is not None else len(data)
+        if vkind == 'P':
+            end = lab - cc.get('G0', 0)
+        insns = _split_insns(data[pre:end])
+        f = formula(insns, pre, cc, lab if lab is not None else 0)
+        s = z3.Solver()
+        s.add(z3.Extract(0, 0, base) == 0, z3.Not(f))
+        return s.check() == z3.unsat, cc, real
+
+    for p, kind, val in x.run(fn):
+        if kind == 'limit':
+            res.inconc('%s: %s' % (tag, val))
+            continue
+        model = p.witness()
+        real = pl.real_assemble(src, p.notes['constants'], compress, p.notes['markers'], model)
+        symc = sym_outcome_concrete(kind, val, model, lambda fid, off, n: b'\x00' * n)
+        if not outcomes_agree(symc, real):
+            res.inconc('%s: witness replay mismatch %r vs %r' % (tag, symc[:1], real[:2]))
+            continue
+        res['validated'] += 1
+        if kind != 'ok':
+            if what == 'jump':
+                continue                     # an odd low part cannot be encoded in jalr
+            cc = {n: core.concrete(v, model) for n, v in {**p.notes['constants'], **p.notes['markers']}.items()}
+            path = common.write_replay('C07', tag + '_refused', dict(kind='program', property='C07', source=src, constants={a: b for a, b in cc.items() if a != 'G0'},
+                                                                       gap_bytes=cc.get('G0'), compress=compress, what='%%hi/%%lo pair refused: %r' % (real[1:3],)))
+            res['violations'].append(dict(harness='hilo-exec', template=src, kind='pair-refused', compress=compress, inputs=cc, real=list(real[:3]), replay=path))
+            res.oblig(False)
+            continue
+        n_acc += 1
+        out, labels, consts, blobs = val
+        insns = []
+        start = None
+        for ln in (first, first + 1):
+            ii, st = line_insns(blobs, ln)
+            if start is None:
+                start = st
+            insns += ii
+        if not insns or any(n is None for n, _ in insns):
+            res.inconc('%s: pair did not come out as instruction words' % tag)
+            continue
+        lab = offset_of_line(blobs, lline) if lline else 0
+        f = formula(insns, start, p.notes['constants'], lab)
+        r, mdl = p.sat(SymBool(z3.And(z3.Extract(0, 0, base) == 0, z3.Not(f))))
+        if r == 'sat':
+            good, cc, real = concrete_good(mdl, p)
+            if good is None or good:
+                res.inconc('%s: counterexample %r did not reproduce on the real code' % (tag, cc))
+            else:
+                path = common.write_replay('C07', tag, dict(kind='program', property='C07', source=src, constants={a: b for a, b in cc.items() if a != 'G0'},
+                                                            gap_bytes=cc.get('G0'), compress=compress,
+                                                            what='the pair does not address the value: bytes %s' % real[1][:12].hex()))
+                res['violations'].append(dict(harness='hilo-exec', template=src, kind='pair-does-not-address-value', compress=compress, inputs=cc,
+                                              bytes=real[1][:12].hex(), replay=path))
+                res.oblig(False)
+        else:
+            res.oblig(True if r == 'unsat' else None, 'unknown %s' % tag)
+    if n_acc == 0:
+        res['vacuity'].append('%s: no accepting path' % tag)
+    res.absorb_stats(x.stats)
+    res['functions'] = prof.names()
+    return res
